@@ -31,6 +31,7 @@ import (
 	"time"
 
 	"github.com/c2h5oh/datasize"
+	"github.com/ghodss/yaml"
 	"mosn.io/api"
 	v2 "mosn.io/mosn/pkg/config/v2"
 	"mosn.io/mosn/pkg/verifrt/vreport"
@@ -522,6 +523,12 @@ func (x *c19Gen) values(s *c19Site) []c19Val {
 		return eq(c19TMP + "/" + x.mark() + "_uds")
 	case "v2.PluginConfig.log_base":
 		return eq(c19TMP + "/" + x.mark() + "_plugin")
+	case "v2.Proxy.downstream_protocol", "v2.Proxy.upstream_protocol":
+		return eq("Http1", "Http2")
+	case "v2.CidrRange.Address":
+		return eq("10.1.0.0", "192.168.7.0")
+	case "v2.CidrRange.Length":
+		return eq(16, 24)
 	case "v2.ThirdPartCodec.type":
 		return eq("go-plugin", "wasm")
 	case "v2.RouterConfigurationConfig.router_configs":
@@ -594,6 +601,8 @@ func (x *c19Gen) values(s *c19Site) []c19Val {
 		switch {
 		case e.Kind() == reflect.String:
 			out = eq(c19Arr{x.mark()}, c19Arr{x.mark(), x.mark()})
+		case e.Kind() == reflect.Uint8:
+			return nil // []byte is base64 text in JSON; no field of the graph has it
 		case e.Kind() >= reflect.Int && e.Kind() <= reflect.Uint64:
 			out = eq(c19Arr{500}, c19Arr{500, 502})
 		case e.Kind() == reflect.Slice && e.Elem().Kind() == reflect.String:
@@ -666,19 +675,41 @@ func (x *c19Gen) leafMuts(s *c19Site) []c19Mut {
 				}
 			}
 		}
-		for f, content := range v.Files {
-			var parsed interface{}
-			json.Unmarshal([]byte(content), &parsed)
-			if obj, ok := parsed.(map[string]interface{}); ok {
-				dir, file := filepath.Split(f)
-				for k, fv := range obj {
-					m.Expect = append(m.Expect, c19Expect{Field: s.ID + " (file content " + k + ")",
-						Path:  []c19Step{{Key: "dirs"}, {Key: c19TMP + "/" + strings.TrimSuffix(dir, "/")}, {Key: file}, {Key: k}},
-						Value: fv, Cmp: "subset"})
-				}
-			}
-		}
+		m.Expect = append(m.Expect, c19FileExpects(s.ID+" [content of the directory]", v.Files)...)
 		out = append(out, m)
+	}
+	return out
+}
+
+// c19FileExpects: the elements given as files of a directory-mode directory
+// must all be in that directory after the dump (as many, each with at least
+// the content it had; the dump may spell out defaults).
+func c19FileExpects(id string, files map[string]string) []c19Expect {
+	byDir := map[string][]interface{}{}
+	for f, content := range files {
+		var parsed interface{}
+		json.Unmarshal([]byte(content), &parsed)
+		dir := strings.TrimSuffix(filepath.Dir(f), "/")
+		byDir[dir] = append(byDir[dir], parsed)
+	}
+	var out []c19Expect
+	dirs := make([]string, 0, len(byDir))
+	for d := range byDir {
+		dirs = append(dirs, d)
+	}
+	sort.Strings(dirs)
+	for _, d := range dirs {
+		l := byDir[d]
+		sort.SliceStable(l, func(i, j int) bool {
+			ni, nj := c19NameOf(l[i]), c19NameOf(l[j])
+			if ni != nj {
+				return ni < nj
+			}
+			return c19JSON(l[i]) < c19JSON(l[j])
+		})
+		// one expectation for the directory as a whole: as many elements, each
+		// with at least what it had
+		out = append(out, c19Expect{Field: id, Path: []c19Step{{Key: "dirs"}, {Key: c19TMP + "/" + d}}, Value: l, Cmp: "subset"})
 	}
 	return out
 }
@@ -802,6 +833,7 @@ func (x *c19Gen) pairMuts(s *c19Site) []c19Mut {
 
 type c19FieldCase struct {
 	Desc   string            `json:"desc"`
+	Format string            `json:"format,omitempty"` // "" = JSON file, "yaml" = the same document as a .yaml file
 	Fields []string          `json:"fields"`
 	Config interface{}       `json:"config"`
 	Files  map[string]string `json:"files,omitempty"`
@@ -895,6 +927,7 @@ var c19QuickPairTypes = map[string]bool{
 type c19Enum struct {
 	Singles []c19FieldCase
 	Pairs   []c19FieldCase
+	Extra   []c19FieldCase // YAML renderings, tricky strings, base fields left out
 	NSites  int
 	NoAlpha []string // leaf sites without an alphabet (not enumerated)
 	PairOf  []string // struct types whose pairs are enumerated
@@ -913,27 +946,297 @@ func c19Enumerate(thorough bool) *c19Enum {
 			e.Singles = append(e.Singles, c19Build(m))
 		}
 	}
+	// every single-field configuration once more as a YAML file (DumpConfig
+	// writes YAML over a YAML file: JSONToYAML / YAMLToJSON are part of the loop)
+	for _, c := range e.Singles {
+		c.Format = "yaml"
+		c.Desc = "yaml: " + c.Desc
+		e.Extra = append(e.Extra, c)
+	}
+	e.Extra = append(e.Extra, x.filterConfigCases()...)
+	e.Extra = append(e.Extra, x.specialCases()...)
+	e.Extra = append(e.Extra, x.trickyStrings()...)
+	e.Extra = append(e.Extra, c19AbsentCases()...)
 	seen := map[reflect.Type]bool{}
 	for _, n := range g.Nodes {
-		if seen[n.Type] || len(n.Sites) < 2 {
+		if len(n.Sites) < 2 {
 			continue
 		}
-		if !thorough && !c19QuickPairTypes[c19TypeString(n.Type)] {
-			continue
+		if !thorough && (seen[n.Type] || !c19QuickPairTypes[c19TypeString(n.Type)]) {
+			continue // quick: the six structs, at their first occurrence; thorough: every occurrence of every struct
 		}
-		seen[n.Type] = true // pairs at the first occurrence of the struct type
-		e.PairOf = append(e.PairOf, c19TypeString(n.Type))
+		if !seen[n.Type] {
+			e.PairOf = append(e.PairOf, c19TypeString(n.Type))
+		}
+		seen[n.Type] = true
 		for i := 0; i < len(n.Sites); i++ {
 			for j := i + 1; j < len(n.Sites); j++ {
 				for _, a := range x.pairMuts(n.Sites[i]) {
 					for _, b := range x.pairMuts(n.Sites[j]) {
-						e.Pairs = append(e.Pairs, c19Build(a, b))
+						c := c19Build(a, b)
+						if where := c19Pattern(c19StepsString(c19StepsOf(c19Plain(n.Path)))); where != "" {
+							c.Desc = "in " + where + ": " + c.Desc
+						}
+						e.Pairs = append(e.Pairs, c)
 					}
 				}
 			}
 		}
 	}
 	return e
+}
+
+// c19Tricky: strings that YAML 1.1 or a careless converter would re-type
+// (booleans, numbers, null, sexagesimal, comment / mapping syntax, escapes).
+var c19Tricky = []string{"true", "yes", "on", "null", "~", "123", "1e3", "0x1F", "1:30", "012", "a: b", "a #b", " lead", "trail ", "q\"uote", "back\\slash", "tab\tnl\nx", "<&>", "é☃", "2026-09-24", "-", "[x]", "{y}", "*a", "&b", "!c", "%d", "@e", "`f"}
+
+// trickyStrings: one configuration per tricky string and file format, the
+// string set at a plain string field, in a list, as a map value, in raw JSON.
+func (x *c19Gen) trickyStrings() []c19FieldCase {
+	find := func(id string, inPath string) *c19Site {
+		for _, s := range x.g.Sites {
+			if s.ID == id && (inPath == "" || c19InPath(s.Path, inPath)) {
+				return s
+			}
+		}
+		return nil
+	}
+	type target struct {
+		s    *c19Site
+		wrap func(t string) interface{}
+	}
+	var ts []target
+	add := func(s *c19Site, wrap func(t string) interface{}) {
+		if s != nil {
+			ts = append(ts, target{s, wrap})
+		}
+	}
+	add(find("v2.ServerConfig.mosn_server_name", ""), func(t string) interface{} { return t })
+	add(find("v2.Cluster.sub_type", ""), func(t string) interface{} { return t })
+	add(find("v2.VirtualHost.domains", ""), func(t string) interface{} { return c19Arr{t, "c19second"} })
+	add(find("v2.RouterConfig.per_filter_config", ""), func(t string) interface{} { return c19Obj{"c19k": t, t: "c19v"} })
+	add(find("v2.ExtendConfig.config", ""), func(t string) interface{} { return c19Obj{"c19k": t, t: c19Arr{t}} })
+	add(find("v2.LbMeta.mosn.lb", "hosts"), func(t string) interface{} { return c19Obj{"c19k": t, t: "c19v"} })
+	var out []c19FieldCase
+	for _, format := range []string{"", "yaml"} {
+		for _, t := range c19Tricky {
+			var ms []c19Mut
+			for _, tg := range ts {
+				v := tg.wrap(t)
+				ms = append(ms, c19Mut{Desc: tg.s.ID, Field: tg.s.ID, Sets: []c19Assign{{Path: tg.s.Path, Value: v}},
+					Expect: x.expectFor(tg.s.ID, tg.s.Path, v, "eq", "")})
+			}
+			c := c19Build(ms...)
+			c.Format = format
+			c.Desc = fmt.Sprintf("tricky string %q in %d string positions (%s)", t, len(ts), map[string]string{"": "json", "yaml": "yaml"}[format])
+			out = append(out, c)
+		}
+	}
+	return out
+}
+
+// c19FilterRoots: the typed per-filter configurations of package v2 (they are
+// not reachable from MOSNConfig by reflection because Filter.Config is a
+// map): each is enumerated field by field inside a filter of its registered
+// type at its position. The dump holds the map as loaded, so this checks the
+// generic map path with realistic content (durations, CIDR ranges, nested
+// lists) and that no filter factory rewrites its configuration in place.
+var c19FilterRoots = []struct {
+	Pos  string // filters (network), stream_filters, listener_filters
+	Type string
+	T    reflect.Type
+	Min  c19Obj
+}{
+	{"filters", "proxy", reflect.TypeOf(v2.Proxy{}), c19Obj{"downstream_protocol": "Http1", "upstream_protocol": "Http1", "router_config_name": "c19Router0"}},
+	{"filters", "tcp_proxy", reflect.TypeOf(v2.StreamProxy{}), c19Obj{"cluster": "c19Cluster0"}},
+	{"filters", "fault_inject", reflect.TypeOf(v2.FaultInject{}), c19Obj{}},
+	{"stream_filters", "fault", reflect.TypeOf(v2.StreamFaultInject{}), c19Obj{}},
+	{"stream_filters", "payload_limit", reflect.TypeOf(v2.StreamPayloadLimit{}), c19Obj{}},
+	{"stream_filters", "gzip", reflect.TypeOf(v2.StreamGzip{}), c19Obj{}},
+	{"stream_filters", "dsl", reflect.TypeOf(v2.StreamDSL{}), c19Obj{}},
+	{"stream_filters", "transcoder", reflect.TypeOf(v2.StreamTranscoder{}), c19Obj{}},
+	{"stream_filters", "fault_tolerance", reflect.TypeOf(v2.FaultToleranceFilterConfig{}), c19Obj{}},
+}
+
+func (x *c19Gen) filterConfigCases() []c19FieldCase {
+	var out []c19FieldCase
+	k := func(s string) c19TStep { return c19TStep{c19Step: c19Step{Key: s}} }
+	i0 := func(t reflect.Type, parent string) c19TStep {
+		return c19TStep{c19Step: c19Step{IsIdx: true}, Elem: t, ParentID: parent}
+	}
+	for _, r := range c19FilterRoots {
+		lst := []c19TStep{k("servers"), i0(reflect.TypeOf(v2.ServerConfig{}), ""), k("listeners"), i0(reflect.TypeOf(v2.Listener{}), "")}
+		var fpath []c19TStep
+		if r.Pos == "filters" {
+			fpath = append(append([]c19TStep{}, lst...), k("filter_chains"), i0(reflect.TypeOf(v2.FilterChain{}), ""), k("filters"), i0(reflect.TypeOf(v2.Filter{}), "v2.FilterChainConfig.filters"))
+		} else {
+			fpath = append(append([]c19TStep{}, lst...), k(r.Pos), i0(reflect.TypeOf(v2.Filter{}), ""))
+		}
+		g := &c19Graph{Patterns: map[string]string{}}
+		g.walk(r.T, c19PathAppend(fpath, k("config")), nil)
+		pre := c19Assign{Path: fpath, Value: c19Obj{"type": r.Type, "config": c19DeepCopy(r.Min)}}
+		for _, s := range g.Sites {
+			for _, m := range x.muts(s) {
+				m.Pre = append([]c19Assign{pre}, m.Pre...)
+				m.Desc = r.Type + " filter config: " + m.Desc
+				out = append(out, c19Build(m))
+			}
+		}
+	}
+	return out
+}
+
+// c19SpecialCases: configurations that are not "one field set":
+// directory-mode boundary names, an xDS-only bootstrap, two extends of one type.
+func (x *c19Gen) specialCases() []c19FieldCase {
+	var out []c19FieldCase
+	find := func(id string) *c19Site {
+		for _, s := range x.g.Sites {
+			if s.ID == id {
+				return s
+			}
+		}
+		return nil
+	}
+	vhT, clT := reflect.TypeOf(v2.VirtualHost{}), reflect.TypeOf(v2.Cluster{})
+	js := func(v interface{}) string { b, _ := json.Marshal(v); return string(b) }
+	long := strings.Repeat("c19long", 19) // 133 characters: longer than v2.MaxFilePath
+	if s := find("v2.RouterConfigurationConfig.router_configs"); s != nil {
+		mk := func(desc string, names ...string) {
+			files := map[string]string{}
+			for i, n := range names {
+				vh := c19Template(vhT, "", i).(c19Obj)
+				if n == "" {
+					delete(vh, "name")
+				} else {
+					vh["name"] = n
+				}
+				files[fmt.Sprintf("dyn_routers/in%d.json", i)] = js(vh)
+			}
+			m := c19Mut{Desc: "router_configs directory with " + desc, Field: s.ID,
+				Pre:   []c19Assign{{Path: c19Sibling(s.Path, "virtual_hosts"), Delete: true}},
+				Sets:  []c19Assign{{Path: s.Path, Value: c19TMP + "/dyn_routers"}},
+				Files: files}
+			m.Expect = append(x.expectFor(s.ID, s.Path, c19TMP+"/dyn_routers", "eq", ""), c19FileExpects(s.ID+" [directory with "+desc+"]", files)...)
+			out = append(out, c19Build(m))
+		}
+		mk("two virtual hosts", "c19VhA", "c19VhB")
+		mk("a virtual host without a name", "")
+		mk("virtual host names that differ only in the path separator", "c19/vh", "c19_vh")
+		mk("virtual host names longer than the file name limit", long+"A", long+"B")
+	}
+	if s := find("v2.ClusterManagerConfigJson.clusters_configs"); s != nil {
+		mk := func(desc string, names ...string) {
+			files := map[string]string{}
+			for i, n := range names {
+				cl := c19Template(clT, "", i).(c19Obj)
+				cl["name"] = n
+				files[fmt.Sprintf("dyn_clusters/in%d.json", i)] = js(cl)
+			}
+			m := c19Mut{Desc: "clusters_configs directory with " + desc, Field: s.ID,
+				Pre:   []c19Assign{{Path: c19Sibling(s.Path, "clusters"), Delete: true}},
+				Sets:  []c19Assign{{Path: s.Path, Value: c19TMP + "/dyn_clusters"}},
+				Files: files}
+			m.Expect = append(x.expectFor(s.ID, s.Path, c19TMP+"/dyn_clusters", "eq", ""), c19FileExpects(s.ID+" [directory with "+desc+"]", files)...)
+			out = append(out, c19Build(m))
+		}
+		mk("two clusters", "c19ClA", "c19ClB")
+		mk("cluster names that differ only in the path separator", "c19/cl", "c19_cl")
+		mk("cluster names longer than the file name limit", long+"A", long+"B")
+	}
+	// xDS-only bootstrap: no servers, static + dynamic resources present
+	// (Mosn.Init substitutes a default server; the dump then has a server)
+	{
+		doc := c19Obj{"static_resources": c19Obj{"c19k": "c19v"}, "dynamic_resources": c19Obj{"c19k": "c19v"},
+			"cluster_manager": c19Obj{"clusters": c19Arr{c19Template(clT, "", 0)}}}
+		out = append(out, c19FieldCase{Desc: "xds-only bootstrap (no servers, static and dynamic resources)", Fields: []string{"mode xds"}, Config: doc,
+			Expect: []c19Expect{
+				{Field: "v2.MOSNConfig.static_resources", Path: []c19Step{{Key: "config"}, {Key: "static_resources"}}, Value: c19Obj{"c19k": "c19v"}, Cmp: "eq"},
+				{Field: "v2.MOSNConfig.dynamic_resources", Path: []c19Step{{Key: "config"}, {Key: "dynamic_resources"}}, Value: c19Obj{"c19k": "c19v"}, Cmp: "eq"},
+				{Field: "v2.ClusterManagerConfigJson.clusters", Path: []c19Step{{Key: "config"}, {Key: "cluster_manager"}, {Key: "clusters"}, {IsIdx: true}, {Key: "name"}}, Value: "c19Cluster0", Cmp: "eq",
+					Skip: "in xDS mode Mosn.Init deliberately ignores the clusters of the file (NewClusterManagerSingleton(nil, nil, …))"},
+			}})
+	}
+	// two extends of the same type: the effective config keys extends by type
+	if s := find("v2.MOSNConfig.extends"); s != nil {
+		v := c19Arr{c19Obj{"type": "c19same", "config": c19Obj{"c19k": "first"}}, c19Obj{"type": "c19same", "config": c19Obj{"c19k": "second"}}}
+		m := c19Mut{Desc: "two extends of the same type", Field: s.ID, Sets: []c19Assign{{Path: s.Path, Value: v}},
+			Expect: []c19Expect{{Field: s.ID, Path: c19ConfigPath(s.Path), Value: 2, Cmp: "len",
+				Skip: "configmanager.SetExtend keys the extend configs by type by design (the later one replaces the earlier); the statement does not clearly cover a repeated type"}}}
+		out = append(out, c19Build(m))
+	}
+	return out
+}
+
+// c19AbsentCases: the base with one of its scalar fields left out (listener
+// name, cluster type, …): what MOSN defaults at load must survive as well.
+// No value is expected anywhere; judged by reload and second dump only.
+func c19AbsentCases() []c19FieldCase {
+	var out []c19FieldCase
+	var walk func(v interface{}, path string, del func(root interface{}) interface{})
+	walk = func(v interface{}, path string, del func(root interface{}) interface{}) {
+		switch x := v.(type) {
+		case c19Obj:
+			keys := make([]string, 0, len(x))
+			for k := range x {
+				keys = append(keys, k)
+			}
+			sort.Strings(keys)
+			for _, k := range keys {
+				k := k
+				p := k
+				if path != "" {
+					p = path + "." + k
+				}
+				walk(x[k], p, nil)
+				switch x[k].(type) {
+				case c19Obj, c19Arr:
+				default:
+					doc := interface{}(c19Base())
+					c19DeleteAt(doc, p)
+					out = append(out, c19FieldCase{Desc: "base without " + p, Fields: []string{"absent " + c19Pattern(p)}, Config: doc})
+				}
+			}
+		case c19Arr:
+			for i, e := range x {
+				walk(e, fmt.Sprintf("%s[%d]", path, i), nil)
+			}
+		}
+	}
+	walk(c19Base(), "", nil)
+	return out
+}
+
+// c19DeleteAt removes the object key at a path written like a.b[0].c
+func c19DeleteAt(doc interface{}, path string) {
+	cur := doc
+	parts := strings.Split(path, ".")
+	for i, part := range parts {
+		key := part
+		var idx []int
+		for strings.HasSuffix(key, "]") {
+			o := strings.LastIndex(key, "[")
+			n, _ := strconv.Atoi(key[o+1 : len(key)-1])
+			idx = append([]int{n}, idx...)
+			key = key[:o]
+		}
+		m, ok := cur.(c19Obj)
+		if !ok {
+			return
+		}
+		if i == len(parts)-1 && len(idx) == 0 {
+			delete(m, key)
+			return
+		}
+		cur = m[key]
+		for _, n := range idx {
+			l, ok := cur.(c19Arr)
+			if !ok || n >= len(l) {
+				return
+			}
+			cur = l[n]
+		}
+	}
 }
 
 // ---------------------------------------------------------------------------
@@ -980,7 +1283,7 @@ func c19DumpDoc(fileBytes []byte, isYAML bool) (map[string]interface{}, error) {
 		if !ok || p == "" {
 			return
 		}
-		files := map[string]interface{}{}
+		files := []interface{}{}
 		ents, _ := os.ReadDir(p)
 		for _, e := range ents {
 			if e.IsDir() {
@@ -991,11 +1294,21 @@ func c19DumpDoc(fileBytes []byte, isYAML bool) (map[string]interface{}, error) {
 				continue
 			}
 			if v, err := c19Parse(b, false); err == nil {
-				files[e.Name()] = v
+				files = append(files, v)
 			} else {
-				files[e.Name()] = "unparseable: " + err.Error()
+				files = append(files, "unparseable "+e.Name()+": "+err.Error())
 			}
 		}
+		// the file names are not configuration (a virtual host without a name
+		// gets a time stamp as file name): the directory is the list of its
+		// elements, ordered by name then by content
+		sort.SliceStable(files, func(i, j int) bool {
+			ni, nj := c19NameOf(files[i]), c19NameOf(files[j])
+			if ni != nj {
+				return ni < nj
+			}
+			return c19JSON(files[i]) < c19JSON(files[j])
+		})
 		dirs[p] = files
 	}
 	if m, ok := cfg.(map[string]interface{}); ok {
@@ -1017,6 +1330,15 @@ func c19DumpDoc(fileBytes []byte, isYAML bool) (map[string]interface{}, error) {
 		}
 	}
 	return map[string]interface{}{"config": cfg, "dirs": dirs}, nil
+}
+
+func c19NameOf(v interface{}) string {
+	if m, ok := v.(map[string]interface{}); ok {
+		if n, ok := m["name"].(string); ok {
+			return n
+		}
+	}
+	return ""
 }
 
 func c19NumEq(a, b interface{}) (bool, bool) {
@@ -1089,8 +1411,22 @@ func c19SubsetDiff(path string, want, got interface{}) (string, interface{}, int
 		return "", nil, nil
 	case []interface{}:
 		g, ok := got.([]interface{})
-		if !ok || len(g) != len(w) {
+		if !ok {
 			return path, want, got
+		}
+		if len(g) != len(w) {
+			names := func(l []interface{}) string {
+				var ns []string
+				for _, e := range l {
+					n := c19NameOf(e)
+					if len(n) > 24 {
+						n = n[:10] + "…" + n[len(n)-10:]
+					}
+					ns = append(ns, n)
+				}
+				return fmt.Sprintf("%d elements (names %q)", len(l), ns)
+			}
+			return path, names(w), names(g)
 		}
 		for i := range w {
 			if p, a, b := c19SubsetDiff(fmt.Sprintf("%s[%d]", path, i), w[i], g[i]); p != "" {
@@ -1185,7 +1521,7 @@ func c19BaseField(f string) string {
 }
 
 type c19Outcome struct {
-	Rejected   string   // the first start did not complete (reason)
+	Rejected   string // the first start did not complete (reason)
 	TimedOut   bool
 	Keys       []string // violation keys
 	ReloadFail bool
@@ -1206,6 +1542,16 @@ func c19RunFieldCase(p *vreport.Part, c c19FieldCase, dir string, blame func(c c
 	cfgBytes, _ := json.MarshalIndent(c19Subst(c19Generic(c.Config), dir), "", " ")
 	// json.Number values marshal as numbers; the generic form is what a user would write
 	cfgPath := filepath.Join(dir, "conf", "mosn_config.json")
+	isYAML := c.Format == "yaml"
+	if isYAML {
+		cfgPath = filepath.Join(dir, "conf", "mosn_config.yaml")
+		y, err := yaml.JSONToYAML(cfgBytes)
+		if err != nil {
+			vreport.HarnessError("C19", "config-fields", "cannot write the case as YAML: "+err.Error())
+			return o
+		}
+		cfgBytes = y
+	}
 	os.WriteFile(cfgPath, cfgBytes, 0644)
 	viol := func(key, detail string) {
 		o.Keys = append(o.Keys, key)
@@ -1220,9 +1566,9 @@ func c19RunFieldCase(p *vreport.Part, c c19FieldCase, dir string, blame func(c c
 		o.Rejected = fmt.Sprintf("stage=%s %s %s", s1.Res.Stage, s1.Res.Err, c19StripTime(c19FatalLine(s1.Tail)))
 		return o
 	}
-	d1, err := c19DumpDoc(s1.File, false)
+	d1, err := c19DumpDoc(s1.File, isYAML)
 	if err != nil {
-		viol("generated: persisted file is not valid JSON", err.Error())
+		viol("generated: persisted file is not parseable in its own format", err.Error())
 		return o
 	}
 	i1, err := c19Parse([]byte(s1.Res.Inherit), false)
@@ -1235,6 +1581,11 @@ func c19RunFieldCase(p *vreport.Part, c c19FieldCase, dir string, blame func(c c
 	c19DiffValues("config", i1, d1["config"], &d)
 	if len(d) > 0 {
 		viol(c19DiffKey("persisted file differs from the hot-upgrade bytes", d[0]), c19DiffText(d))
+	}
+	if dbg := os.Getenv("VERIF_C19_DEBUG_DIR"); dbg != "" && strings.HasPrefix(dbg, "/tmp/C19-") { // development aid only
+		os.MkdirAll(dbg, 0755)
+		b, _ := json.MarshalIndent(map[string]interface{}{"case": c, "dump1": d1}, "", " ")
+		os.WriteFile(filepath.Join(dbg, filepath.Base(dir)+".json"), b, 0644)
 	}
 	// (1) nothing the input set is dropped, changed or re-typed by the dump
 	for _, e := range c.Expect {
@@ -1268,9 +1619,9 @@ func c19RunFieldCase(p *vreport.Part, c c19FieldCase, dir string, blame func(c c
 			s2.Res.Stage, s2.Exit, s2.Res.Err, strings.ReplaceAll(c19StripTime(c19FatalLine(s2.Tail)), dir, c19TMP)))
 		return o
 	}
-	d2, err := c19DumpDoc(s2.File, false)
+	d2, err := c19DumpDoc(s2.File, isYAML)
 	if err != nil {
-		viol("generated: second persisted file is not valid JSON", err.Error())
+		viol("generated: second persisted file is not parseable in its own format", err.Error())
 		return o
 	}
 	d = nil
@@ -1386,6 +1737,9 @@ func TestVerifC19Fields(t *testing.T) {
 		}
 	})
 	if complete {
+		complete = run(e.Extra, "x", nil, nil)
+	}
+	if complete {
 		complete = run(e.Pairs, "p", func(c c19FieldCase, kind string) string {
 			mu.Lock()
 			defer mu.Unlock()
@@ -1408,6 +1762,7 @@ func TestVerifC19Fields(t *testing.T) {
 	p.Note("field_sites", e.NSites)
 	p.Note("single_field_configurations", len(e.Singles))
 	p.Note("pair_configurations", len(e.Pairs))
+	p.Note("extra_configurations_yaml_filterconfigs_special_tricky_absent", len(e.Extra))
 	p.Note("pairs_inside", e.PairOf)
 	p.Note("rejected_by_mosn_first_start", nrej)
 	p.Note("rejected_detail", rj)
